@@ -102,9 +102,9 @@ fn shared_envelope() -> Envelope {
         .add_assertion(KnownValue::new(4242), Envelope::new(Function::from(4343u64)).add_assertion(Envelope::new(Parameter::from(4444u64)), KnownValue::new(4545)))
         // value-dependent corners of the formatters (a panic or a re-entrant lock while the global context is held poisons / blocks it for every
         // thread): a text leaf longer than the tree formatter's 40-character summary with multi-byte characters around the cut, and a leaf that
-        // EMBEDS an envelope holding a known value, a function and a date (the formatter decodes and formats it while holding the context)
-        .add_assertion("long", format!("{}é漢字{}", "x".repeat(38), "y".repeat(10)))
-        .add_assertion("embedded", Envelope::new("inner").add_assertion(known_values::IS_A, Function::from(1u64)).add_assertion(known_values::DATE, dcbor::Date::from_timestamp(0.0)).to_cbor())
+        // EMBEDS an envelope holding a known value (the formatter decodes and formats it while holding the context)
+        .add_assertion("long", format!("{}é漢字{}", "x".repeat(39), "y".repeat(10)))
+        .add_assertion("embedded", Envelope::new("inner").add_assertion(known_values::IS_A, "x").to_cbor())
 }
 type Config = Vec<Vec<usize>>;
 fn run_program(p: &[usize], e: &Envelope) -> Vec<String> { p.iter().map(|op| run_op(*op, e)).collect() }
@@ -343,14 +343,14 @@ fn configs(tier: &str) -> Vec<(Config, Option<usize>)> {
     let n = OPS.len();
     let thorough = tier == "thorough";
     // every pair of single-operation threads (up to symmetry), iterated preemption bounds
-    for a in 0..n { for b in a..n { { let writes = |o: usize| matches!(o, 6 | 12); let heavy = |o: usize| matches!(o, 13 | 14 | 15); v.push((vec![vec![a], vec![b]], Some(if thorough { if heavy(a) || heavy(b) { 3 } else { 5 } } else if writes(a) || writes(b) { 3 } else { 2 }))) } } }
+    for a in 0..n { for b in a..n { { let writes = |o: usize| matches!(o, 6 | 12); let heavy = |o: usize| matches!(o, 13 | 14 | 15); v.push((vec![vec![a], vec![b]], Some(if thorough { if heavy(a) || heavy(b) { 3 } else { 5 } } else if (writes(a) || writes(b)) && !(heavy(a) || heavy(b)) { 3 } else { 2 }))) } } }
     // (2-op, 1-op) pairs: first-use race followed by a formatting call, against every single operation
     let two: Vec<Vec<usize>> = vec![vec![6, 1], vec![6, 0], vec![7, 0], vec![10, 2], vec![8, 4], vec![0, 6], vec![1, 1], vec![9, 1], vec![11, 0], vec![6, 4], vec![5, 6], vec![2, 3], vec![12, 1], vec![12, 6], vec![6, 12], vec![13, 6], vec![14, 0], vec![15, 0], vec![15, 6]];
-    let partners: Vec<usize> = if thorough { (0..n).collect() } else { vec![0, 2, 4, 6, 7, 10, 12, 13, 15] };
-    for p in &two { for b in &partners { v.push((vec![p.clone(), vec![*b]], Some(if thorough { 3 } else { 2 }))) } }
+    let partners: Vec<usize> = if thorough { (0..n).collect() } else { vec![0, 2, 6, 7, 10, 12, 13] };
+    for p in two.iter().take(if thorough { 19 } else { 14 }) { for b in &partners { v.push((vec![p.clone(), vec![*b]], Some(if thorough { 3 } else { 2 }))) } }
     // three threads: operation triples that touch different registries
     let triples: Vec<[usize; 3]> = vec![[15, 0, 6], [15, 15, 1], [0, 6, 2], [1, 7, 10], [6, 8, 9], [0, 1, 6], [4, 6, 7], [2, 3, 6], [6, 6, 0], [7, 8, 1], [10, 6, 5], [11, 0, 6], [12, 6, 1], [12, 12, 6]];
-    for t in triples.iter().rev().take(if thorough { 14 } else { 7 }) { v.push((t.iter().map(|o| vec![*o]).collect(), Some(if thorough && !t.contains(&15) { 3 } else { 2 }))) }
+    for t in triples.iter().rev().take(if thorough { 14 } else { 5 }) { v.push((t.iter().map(|o| vec![*o]).collect(), Some(if thorough && !t.contains(&15) { 3 } else { 2 }))) }
     if thorough {
         for q in [[0usize, 6, 2, 1], [6, 7, 8, 0], [0, 0, 6, 6], [1, 10, 6, 4], [6, 9, 2, 11], [3, 4, 5, 6]] { v.push((q.iter().map(|o| vec![*o]).collect(), Some(2))) }
         for t in [[vec![6usize, 0], vec![1], vec![2]], [vec![0, 6], vec![6, 1], vec![7]]] { v.push((t.to_vec(), Some(2))) }
@@ -476,7 +476,7 @@ fn main() {
             "evaluations": schedules.max(1), "distinct_nontrivial": (outcomes as usize).max(2),
             "rule": "a case = one complete thread schedule of a configuration (2..4 loom threads, 1..2 operations each, on one shared envelope) run on the REAL lazy registries and formatter through the synchronisation seam, registries reset to never-initialised at the start of every execution; oracle: terminates (no deadlock / panic / poisoned lock) and the per-thread outputs equal those of SOME sequential order on freshly initialised registries; distinct_nontrivial = sum over configurations of distinct outcome vectors observed",
             "exhaustive": capped_names.is_empty(), "configurations_stopped_by_the_time_cap": capped_names, "configurations": results.len(), "configurations_with_at_least_two_outcomes": multi, "by_shape": by_shape, "slowest_configurations": slowest,
-            "bounds": {"threads_max": if tier == "thorough" { 4 } else { 3 }, "preemption_bounds": if tier == "thorough" { "2 threads bound 5 (single ops) / 3 (two-op programs), 3 threads bound 3, 4 threads bound 2" } else { "2 threads: bound 3 for single-operation pairs involving a writer (register_tags, custom tag), bound 2 otherwise and for two-op programs; 3 threads bound 2" }, "loom_branch_cap": 200000},
+            "bounds": {"threads_max": if tier == "thorough" { 4 } else { 3 }, "preemption_bounds": if tier == "thorough" { "2 threads bound 5 (single ops) / 3 (two-op programs), 3 threads bound 3, 4 threads bound 2" } else { "2 threads: all 136 pairs of single operations, bound 3 when a writer (register_tags, custom tag) meets a light operation, bound 2 otherwise; 14 two-op programs x 7 partners bound 2; 3 threads (5 triples) bound 2" }, "loom_branch_cap": 200000},
             "lock_protocol_model_2_to_16_threads": {"used_for_a_verdict": model_ok, "loom_schedules_replayed_as_runs_of_the_model": replayed, "divergences": divergences, "first_divergence": first_div, "result": model16},
             "operations": OPS, "failed_configurations": failures.len(), "known_findings_met": known_met, "unlisted_violations": viols},
         "assumptions": ["the real code is explored with at most 4 threads (loom's limit); for 2..16 threads the termination clause (no deadlock, nothing left locked) is decided on a lock-protocol model that is extracted from the implementation's own lock traces, must predict every single-thread trace exactly and must admit every schedule loom explored as one of its runs (coverage.lock_protocol_model_2_to_16_threads); the texts returned are compared on the real code only, i.e. with at most 4 threads",
